@@ -2,4 +2,5 @@ import DoviModel.Proofs.HevcSei
 import DoviModel.Proofs.HevcGeneral
 import DoviModel.Proofs.HevcExtract
 import DoviModel.Proofs.HevcInject
+import DoviModel.Proofs.HevcRoundTrip
 /-! helper lemmas about the stream-command model (Model/Hevc.lean), by topic -/
